@@ -210,6 +210,7 @@ func registerZZ(in *Interp) {
 		in.overrides[strArg(a[0])] = f.v
 		return nil
 	}
+	I[zz+"ExitAfterCase"] = func(in *Interp, fr *frame, fn *ssa.Function, a []value) value { return nil }
 	I[zz+"Concrete"] = func(in *Interp, fr *frame, fn *ssa.Function, a []value) value {
 		// Concrete(x int) int: concretise by forking
 		return in.intArg(a[0], "Concrete")
